@@ -831,3 +831,178 @@ func Region(fn *ssa.Function) []*ssa.Function {
 	rec(fn, 0)
 	return out
 }
+
+// ---------------------------------------------------------------------------
+// forward value flow
+
+// FlowSet returns the SSA values that v may flow into unchanged: through φs,
+// interface/type changes, stores to and loads from plain locals, tuple
+// extraction, and - across an eligible helper's boundary - from a returned
+// value to the call's result at every call site, and from an argument to the
+// helper's parameter.
+func FlowSet(v ssa.Value) map[ssa.Value]bool {
+	out := map[ssa.Value]bool{}
+	var visit func(x ssa.Value, depth int)
+	visit = func(x ssa.Value, depth int) {
+		if x == nil || out[x] || depth > 24 {
+			return
+		}
+		out[x] = true
+		refs := x.Referrers()
+		if refs == nil {
+			return
+		}
+		for _, r := range *refs {
+			switch y := r.(type) {
+			case *ssa.Phi:
+				visit(y, depth+1)
+			case *ssa.ChangeInterface:
+				visit(y, depth+1)
+			case *ssa.ChangeType:
+				visit(y, depth+1)
+			case *ssa.MakeInterface:
+				visit(y, depth+1)
+			case *ssa.Store:
+				if y.Val != x {
+					continue
+				}
+				// a local variable (possibly captured by closures of the same function, e.g. a named result
+				// assigned in a deferred recover): the value may be read back by any load of that variable
+				cell := y.Addr
+				if fv, ok := cell.(*ssa.FreeVar); ok {
+					cell = c18Binding(fv)
+				}
+				a, ok := cell.(*ssa.Alloc)
+				if !ok {
+					continue
+				}
+				var loads func(addr ssa.Value, d int)
+				loads = func(addr ssa.Value, d int) {
+					if addr == nil || addr.Referrers() == nil || d > 3 {
+						return
+					}
+					for _, rr := range *addr.Referrers() {
+						switch z := rr.(type) {
+						case *ssa.UnOp:
+							if z.Op == token.MUL && z.X == addr {
+								visit(z, depth+1)
+							}
+						case *ssa.MakeClosure:
+							if g, ok := z.Fn.(*ssa.Function); ok {
+								for bi, b := range z.Bindings {
+									if b == addr && bi < len(g.FreeVars) {
+										loads(g.FreeVars[bi], d+1)
+									}
+								}
+							}
+						}
+					}
+				}
+				loads(a, 0)
+			case *ssa.Return:
+				f := y.Parent()
+				if !Eligible(f) {
+					continue
+				}
+				idx := -1
+				for i, res := range y.Results {
+					if res == x {
+						idx = i
+					}
+				}
+				for _, site := range sitesOf(f) {
+					sv := site.Value()
+					if sv == nil {
+						continue
+					}
+					if len(y.Results) == 1 {
+						visit(sv, depth+1)
+						continue
+					}
+					if sv.Referrers() != nil {
+						for _, rr := range *sv.Referrers() {
+							if ex, ok := rr.(*ssa.Extract); ok && ex.Index == idx {
+								visit(ex, depth+1)
+							}
+						}
+					}
+				}
+			case ssa.CallInstruction:
+				if h := helperOf(y); h != nil {
+					for i, a := range Args(y) {
+						if a == x && i < len(h.Params) {
+							visit(h.Params[i], depth+1)
+						}
+					}
+				}
+			}
+		}
+	}
+	visit(v, 0)
+	return out
+}
+
+// ConstAlternatives: the finitely many constant byte strings v can hold - a
+// constant, a φ of such, a plain local assigned only such, or a result of an
+// eligible helper all of whose returns are such (non-constant results of
+// other indices do not matter). ok is false when some alternative is not a constant.
+func ConstAlternatives(v ssa.Value) (alts [][]byte, ok bool) {
+	seen := map[ssa.Value]bool{}
+	ok = true
+	var rec func(x ssa.Value, d int)
+	rec = func(x ssa.Value, d int) {
+		if !ok || seen[x] {
+			return
+		}
+		seen[x] = true
+		if d > 8 {
+			ok = false
+			return
+		}
+		if b, isC := constBytes(x); isC {
+			alts = append(alts, b)
+			return
+		}
+		switch y := Strip(x).(type) {
+		case *ssa.Phi:
+			for _, e := range y.Edges {
+				rec(e, d+1)
+			}
+		case *ssa.Extract:
+			call, isCall := y.Tuple.(*ssa.Call)
+			if !isCall {
+				ok = false
+				return
+			}
+			h := helperOf(call)
+			if h == nil {
+				ok = false
+				return
+			}
+			for _, r := range Returns(h) {
+				rv := RetVals(r)
+				if y.Index >= len(rv) {
+					ok = false
+					return
+				}
+				rec(rv[y.Index], d+1)
+			}
+		case *ssa.Call:
+			h := helperOf(y)
+			if h == nil || h.Signature.Results().Len() != 1 {
+				ok = false
+				return
+			}
+			for _, r := range Returns(h) {
+				rec(RetVals(r)[0], d+1)
+			}
+		default:
+			ok = false
+		}
+	}
+	rec(v, 0)
+	if len(alts) == 0 {
+		ok = false
+	}
+	return
+}
